@@ -22,7 +22,7 @@ fn pow(b: &Integer, e: &Integer, n: &Integer) -> Integer {
 /// Challenges recomputable from public data: the ones stored in the proof and the ones of the
 /// (t, s1, s2) sigma proofs, recomputed exactly as the verifier does and validated against the
 /// verification equation (a mismatch is a harness error, never a pass).
-fn challenges(v: &View) -> Result<Vec<(String, Integer)>, String> {
+pub fn public_challenges(v: &View) -> Result<Vec<(String, Integer)>, String> {
     let mut out: Vec<(String, Integer)> = vec![];
     let n = &v.issuer_n;
     for (path, val) in int_leaves(&v.proof) {
@@ -96,7 +96,7 @@ fn far(a: &Integer, b: &Integer) -> bool {
 
 pub fn check_view<CS: CLCiphersuite>(rep: &Report, ck: &str, c: &Case, v: &View) -> CheckResult {
     let cj = |d: Value| json!({"case": c, "kind": v.kind, "hidden": v.hidden, "detail": d});
-    let chals = match challenges(v) {
+    let chals = match public_challenges(v) {
         Ok(c) => c,
         Err(e) => {
             out(&format!("INCONCLUSIVE property=C19 {}", e));
@@ -156,6 +156,29 @@ pub fn check_view<CS: CLCiphersuite>(rep: &Report, ck: &str, c: &Case, v: &View)
         }
         rep.class_n("targeted-response/challenge-pairs", targeted.len() as u64);
     }
+    // (0b) a response whose blinding term is 0 or 1 is a multiple of its challenge (plus 1): a test that needs
+    // no knowledge of the secret, so it also covers the commitments made inside proof generation.
+    // For honest responses the probability is 1 / challenge.
+    for (sp, s) in &leaves {
+        if s.significant_bits() < 300 {
+            continue;
+        }
+        for (cp, ch) in &chals {
+            if ch.significant_bits() < 100 || ch >= s {
+                continue;
+            }
+            n_div += 1;
+            let r = (s % ch).complete();
+            if r == 0 || r == 1 {
+                return rep.fail(
+                    ck,
+                    &format!("unblinded-response:{}:{}", v.kind, generic_path(sp)),
+                    format!("{}: {} = {} (mod {}): the blinding term of this response is {}", v.kind, sp, r, cp, r),
+                    cj(json!({"response": sp, "challenge": cp})),
+                );
+            }
+        }
+    }
     let small_secrets = secrets.iter().any(|s| s.1.significant_bits() < 200);
     // (1) response / challenge over ALL leaves - only meaningful for high-entropy secrets
     for (sp, s) in &leaves {
@@ -210,6 +233,20 @@ pub fn check_view<CS: CLCiphersuite>(rep: &Report, ck: &str, c: &Case, v: &View)
         }
     }
     rep.eval(ck, n_div);
+    // (2b) two responses sharing their blinding under two challenges: (s - s')/(c - c') is the secret
+    {
+        let cs: Vec<Integer> = chals.iter().map(|c| c.1.clone()).collect();
+        let sv: Vec<Integer> = secrets.iter().map(|s| s.1.clone()).filter(|x| x.significant_bits() >= 200).collect();
+        rep.eval(ck, 1);
+        if let Some((p1, p2, si)) = c17::attack_difference_quotient(&v.proof, &cs, &sv) {
+            return rep.fail(
+                ck,
+                &format!("difference-quotient-yields-secret:{}:{}:{}", v.kind, generic_path(&p1), generic_path(&p2)),
+                format!("{}: ({} - {}) / (c - c') equals a secret (index {}): shared blinding under two challenges", v.kind, p1, p2, si),
+                cj(json!({"s": p1, "s_prime": p2})),
+            );
+        }
+    }
     // (3) range proofs: the responses answer for the square roots of (2^T x - aa) and (bb - 2^T x)
     let lm = CS::lm;
     let le = CS::le;
@@ -316,6 +353,28 @@ pub fn run(ctx: &Ctx, rep: &Report) -> Meta {
         })
         .collect();
     par_items(ctx, rep, "small-attributes", &small, |c| one(rep, "small-attributes", c));
+    // long-lived prover threads: many proofs generated one after the other on the same thread (state that
+    // accumulates per thread - counters, buffers, re-keying - is reached only this way), each one judged
+    let per_thread = ctx.tier.pick(36usize, 200usize);
+    let jobs: Vec<usize> = (0..ctx.tier.pick(6usize, 12usize)).collect();
+    par_items(ctx, rep, "long-lived-prover-thread", &jobs, |&j| {
+        // shift the phase of any per-thread counter differently on every thread
+        for _ in 0..j * 37 {
+            let _ = zkryptium::utils::random::random_bits(1 + (j as u32 * 101) % 1500);
+        }
+        let mut st = ctx.seed ^ (0x10_0000 + j as u64);
+        for k in 0..per_thread {
+            if rep.aborted() {
+                break;
+            }
+            let n = 1 + (crate::gen::splitmix(&mut st) % 3) as usize;
+            let hm = 1 + (crate::gen::splitmix(&mut st) as usize % ((1 << n) - 1)) as u8;
+            let c = Case { key: crate::gen::splitmix(&mut st) as u16, n, hidden_mask: hm, kind: [2u8, 0, 2, 1][k % 4], seed: crate::gen::splitmix(&mut st) as u32, small_mask: if k % 5 == 4 { hm } else { 0 } };
+            one(rep, "long-lived-prover-thread", &c)?;
+        }
+        rep.class_n("proofs-generated-on-long-lived-threads", per_thread as u64);
+        Ok(())
+    });
     if ctx.tier == Tier::Thorough && !rep.aborted() {
         for (s2, nfix) in [(ClSuite::CL2048, 2usize), (ClSuite::CL3072, 2)] {
             let keys = key_pool(s2, 0, nfix, ctx.seed);
@@ -335,9 +394,9 @@ pub fn run(ctx: &Ctx, rep: &Report) -> Meta {
     Meta {
         rule: "honest issuance proofs (with / without trusted commitment) and signature proofs for EVERY non-empty hidden set (n = 1..3 quick / 1..5 thorough) plus generated cases, high-entropy 256-bit attributes; \
                attacker program: every Fiat-Shamir challenge recomputable from public data (stored ones, C and C mod 2^128 of the interval proofs, and the (t, s1, s2) proofs' challenges recomputed as the verifier does and validated against the verification equation); \
-               for every integer leaf s, every such challenge c and every other leaf s': | floor(s/c) - x | >= 2^64 and | floor(s/s') - x | >= 2^64 for every secret x the prover holds (hidden attributes, e, s, the randomness of C and of the trusted commitment); \
+               no response is congruent to 0 or 1 modulo a challenge (unblinded response, no secret needed); for every integer leaf s, every such challenge c and every other leaf s': | floor(s/c) - x | >= 2^64 and | floor(s/s') - x | >= 2^64 for every secret x the prover holds (hidden attributes, e, s, the randomness of C and of the trusted commitment); \
                additionally, with hidden attributes forced to 0 / 1, the response answering for each hidden attribute divided by its own challenge (sound for small values); for every square proof of every embedded range proof the public inverse map floor((floor(d/c)^2 + aa)/2^T), floor((bb - floor(d/c)^2)/2^T) must be >= 2^64 away from the committed value (hidden attribute, e, r); \
-               positive control: an under-blinded response is flagged, a properly blinded one is not; non-trivial = proof with >= 1 hidden attribute; evaluations = quotients judged"
+               long-lived prover threads generate 36 (quick) / 200 (thorough) proofs each in sequence, every one judged; positive control: an under-blinded response is flagged, a properly blinded one is not; non-trivial = proof with >= 1 hidden attribute; evaluations = quotients judged"
             .into(),
         assumptions: vec![
             "randomness of the commitments made inside proof generation (rx, rw, re, w, r_i) is not known to the harness and is judged only where the division yields a known secret".into(),
